@@ -35,7 +35,7 @@ def check(run, only_cases=None):
     thorough = run.tier == "thorough"
     run.rule = ("inputs: every code point (thorough) or all < U+3000 + range edges + a seeded stride (quick) as "
                 "one-character strings, every invalid byte, all pairs over a 43-character boundary alphabet, seeded "
-                "random strings; x 5 escapers, each called directly, as registered in the Twig environment, and through the escape filter on a value marked safe for another content type. non-trivial = the input contains a character the escaper rewrites "
+                "random strings; x 5 escapers, each called directly, as registered in the Twig environment, and through the escape filter on a value marked safe for another content type, and through an explicit escape('<strategy>') printed in a template named for another content type. non-trivial = the input contains a character the escaper rewrites "
                 "(output differs from input)")
     run.assumptions = ["decoders of the target contexts are the ones transcribed in spec/Escape.tla",
                        "html_attr: inputs with control characters are judged on inertness only (the statement's own exception)"]
@@ -55,7 +55,9 @@ def check(run, only_cases=None):
             return [t for t in types if t != c["fn"]][k % 4]
         cases = (cases + [dict(c, id=c["id"] + "/env", via="env") for c in cases]
                  # ... and through the escape filter, on a value marked safe for one of the OTHER four content types
-                 + [dict(c, id=c["id"] + "/flt", via="filter:" + other(c, k)) for k, c in enumerate(cases)])
+                 + [dict(c, id=c["id"] + "/flt", via="filter:" + other(c, k)) for k, c in enumerate(cases)]
+                 # ... and through {{ v|escape('<fn>') }} in a template whose name selects one of the other content types (or none)
+                 + [dict(c, id=c["id"] + "/tpl", via="tpl:" + [t for t in types + ["txt", "twig"] if t != c["fn"]][k % 6]) for k, c in enumerate(cases)])
     obs, hooks = common.run_pool(cases, deadline_ms=5000)
     run.hooks = hooks
     events, idx = [], []
